@@ -139,6 +139,10 @@ type boolSuite struct {
 	muxIter  func(kit.V3, func(int)) int
 	muxP     func(kit.V3) []bool // AllContains of a mux built from the permuted list
 	perm     []int
+	// inBox[i] reports whether the point is inside operand i's own Min()/Max() box (closed)
+	inBox []func(kit.V3) bool
+	// statistics
+	contractSkips int
 }
 
 func boolStr(b []bool) string {
@@ -178,12 +182,6 @@ func (s *boolSuite) checkPoint(p kit.V3) (mixed bool, err error) {
 	if got := s.interP(p); got != and {
 		return false, fmt.Errorf("IntersectedSolid of the permuted operands %v answers %v, original order %v %s", s.perm, got, and, ctx())
 	}
-	if got := s.opt(p); got != or {
-		return false, fmt.Errorf("JoinedSolid.Optimize().Contains = %v, plain join = %v %s", got, or, ctx())
-	}
-	if got := s.optP(p); got != or {
-		return false, fmt.Errorf("Optimize() of the permuted join %v answers %v, plain join = %v %s", s.perm, got, or, ctx())
-	}
 	if s.sub != nil {
 		pos, neg := false, false
 		for i := range b {
@@ -199,6 +197,23 @@ func (s *boolSuite) checkPoint(p kit.V3) (mixed bool, err error) {
 		if got := s.sub01(p); got != (b[0] && !b[1]) {
 			return false, fmt.Errorf("SubtractedSolid{ops[0], ops[1]}.Contains = %v, want %v %s", got, b[0] && !b[1], ctx())
 		}
+	}
+	// The accelerated forms test bounding boxes before asking an operand, which is licensed by the documented
+	// Solid contract ("Contains must always return false outside of the boundaries of the solid").  Where an
+	// operand itself breaks that contract (primitives do so by a rounding error: a point one ulp beyond a
+	// sphere's extreme point is still "within the radius"), the plain and the accelerated answers may
+	// legitimately differ; that is property C03's business, the point is skipped here and counted.
+	for i := range b {
+		if b[i] && !s.inBox[i](p) {
+			s.contractSkips++
+			return or && !and, nil
+		}
+	}
+	if got := s.opt(p); got != or {
+		return false, fmt.Errorf("JoinedSolid.Optimize().Contains = %v, plain join = %v %s", got, or, ctx())
+	}
+	if got := s.optP(p); got != or {
+		return false, fmt.Errorf("Optimize() of the permuted join %v answers %v, plain join = %v %s", s.perm, got, or, ctx())
 	}
 	if got := s.muxHas(p); got != or {
 		return false, fmt.Errorf("SolidMux.Contains = %v, plain join = %v %s", got, or, ctx())
@@ -282,6 +297,10 @@ func (s *boolSuite) run(pts []kit.V3, o *kit.Obs, dup, nested bool) error {
 	if nOut > 0 {
 		o.Label("pts:in-none")
 	}
+	if s.contractSkips > 0 {
+		// a few points of the case, never the whole case
+		o.Label("partial-skip:operand-contains-outside-own-box")
+	}
 	// non-trivial: at least two operands and a point on which they disagree (the join, the intersection
 	// and the subtraction are then all decided by more than one operand)
 	if s.n >= 2 && nMixed > 0 {
@@ -323,6 +342,10 @@ func checkBool3(c boolCase, o *kit.Obs) error {
 	s := &boolSuite{n: n, perm: c.Perm, subSplit: c.Split}
 	for _, sd := range solids {
 		s.operand = append(s.operand, w(sd))
+		mn, mx := sd.Min(), sd.Max()
+		s.inBox = append(s.inBox, func(p kit.V3) bool {
+			return p[0] >= mn.X && p[1] >= mn.Y && p[2] >= mn.Z && p[0] <= mx.X && p[1] <= mx.Y && p[2] <= mx.Z
+		})
 	}
 	// every combinator gets its own copy of the slice (SolidMux keeps the slice it is given)
 	cp := func(x []model3d.Solid) []model3d.Solid { return append([]model3d.Solid(nil), x...) }
@@ -381,6 +404,10 @@ func checkBool2(c bool2Case, o *kit.Obs) error {
 	s := &boolSuite{n: n, perm: c.Perm, subSplit: c.Split}
 	for _, sd := range solids {
 		s.operand = append(s.operand, w(sd))
+		mn, mx := sd.Min(), sd.Max()
+		s.inBox = append(s.inBox, func(p kit.V3) bool {
+			return p[0] >= mn.X && p[1] >= mn.Y && p[0] <= mx.X && p[1] <= mx.Y
+		})
 	}
 	cp := func(x []model2d.Solid) []model2d.Solid { return append([]model2d.Solid(nil), x...) }
 	s.joined = w(model2d.JoinedSolid(cp(solids)))
@@ -497,12 +524,12 @@ func checkStack(c stackCase, o *kit.Obs) error {
 			return fmt.Errorf("StackedSolid.Contains(%v) = %v, want %v: offsets %v, first deciding operand %d", p, got, want, delta, hit)
 		}
 	}
-	if skipped > 0 {
-		o.Skip("near-operand-boundary")
+	if decided == 0 {
+		o.Skip("every-point-near-an-operand-boundary")
+	} else if skipped > 0 {
+		o.Label("partial-skip:near-operand-boundary")
 	}
-	if decided > 0 {
-		o.Label("pts:decided")
-	}
+	o.Labelf("decided-fraction:%d0%%", decided*10/(decided+skipped+1))
 	// non-trivial: three or more operands and a point held only by the third or a later one (its offset is the
 	// sum of at least two heights)
 	if n >= 3 && upper {
